@@ -154,6 +154,9 @@ func byteSeq(v ssa.Value) (parts []ssa.Value, ok bool) {
 			}
 			return append(base, x.Call.Args[1]), true
 		}
+		if parts, ok := helperSeq(x); ok {
+			return parts, true
+		}
 		return []ssa.Value{x}, true
 	case *ssa.Phi:
 		return nil, false
@@ -260,4 +263,72 @@ func describeStep(set, known bool, val int64) string {
 		return "non-constant"
 	}
 	return fmt.Sprintf("%d", val)
+}
+
+// helperSeq looks through a module helper that only concatenates its parameters (and constants): the call
+// signingMaterial(a, b, c)  whose body returns  append(append(append(nil, a...), b...), c...)  is the sequence [a b c]
+// in the caller's values. Anything else inside the helper keeps the call opaque.
+func helperSeq(call *ssa.Call) ([]ssa.Value, bool) {
+	g := call.Call.StaticCallee()
+	if g == nil || !core.InModule(g) || g.Blocks == nil || g.Signature.Results().Len() != 1 || g.Signature.Recv() != nil {
+		return nil, false
+	}
+	var rets []*ssa.Return
+	core.Instrs(g, func(i ssa.Instruction) {
+		if r, ok := i.(*ssa.Return); ok {
+			rets = append(rets, r)
+		}
+	})
+	if len(rets) != 1 {
+		return nil, false
+	}
+	rv := res(rets[0])[0]
+	if c, ok := core.StripConv(rv).(*ssa.Call); !ok || c.Call.StaticCallee() != nil {
+		return nil, false // only append chains (a builtin call), never another helper: bounded and no recursion
+	}
+	inner, ok := byteSeq(rv)
+	if !ok || len(inner) == 0 {
+		return nil, false
+	}
+	out := make([]ssa.Value, 0, len(inner))
+	for _, part := range inner {
+		v := paramOf(part, g)
+		if v < 0 {
+			if k, isK := core.StripConv(part).(*ssa.Const); isK {
+				out = append(out, k)
+				continue
+			}
+			return nil, false
+		}
+		out = append(out, call.Call.Args[v])
+	}
+	return out, true
+}
+
+// paramOf: part is a parameter of g, a conversion of one, or a slice  p[:]  of (the spilled copy of) one; -1 otherwise.
+func paramOf(part ssa.Value, g *ssa.Function) int {
+	part = core.StripConv(part)
+	if sl, ok := part.(*ssa.Slice); ok && sl.Low == nil && sl.High == nil {
+		part = sl.X
+		if a, isA := part.(*ssa.Alloc); isA {
+			var val ssa.Value
+			n := 0
+			for _, r := range *a.Referrers() {
+				if st, ok := r.(*ssa.Store); ok && st.Addr == ssa.Value(a) {
+					val = st.Val
+					n++
+				}
+			}
+			if n != 1 {
+				return -1
+			}
+			part = core.StripConv(val)
+		}
+	}
+	for k, q := range g.Params {
+		if ssa.Value(q) == part {
+			return k
+		}
+	}
+	return -1
 }
